@@ -30,6 +30,7 @@ type Opts struct {
 	TagVariety    bool // the full tag spelling catalogue of C09
 	NoIgnoreTag   bool // never put gomacro:"ignore" on a JSON-visible field (C03/C04 domain note)
 	JSONSafe      bool // only shapes whose Go JSON encoding round-trips (no bool/float map keys, no embedded time …)
+	ManySubPkgs   bool // up to 4 imported packages (C07: import lists)
 	OtherFile     int  // out of 10: share of root declarations placed in the sibling (not analysed) file; 0 = 1
 	DataIgnore    bool // gomacro-data:"ignore" tags (C15)
 	NoValuerNames bool // no field named Value / Scan (the type receives sql.Valuer / sql.Scanner methods)
